@@ -411,6 +411,28 @@ struct AppTokenWorld : World
         const char* opn = kKind[op.kind];
         switch (op.kind) {
           case K_REG:
+            if ((uint64_t)op.a[1] % 8 == 5) {
+              // an owner that lives in a scope which is left by an exception: the unwinding destroys it like any other
+              // way out of the scope would, and its token is released
+              int* ptr = &g_objs[next_obj++ % 8192];
+              uint64_t tok = 0;
+              Outcome o = attempt([&] {
+                Owner scoped = sb.get_app_pointer(ptr);
+                tok = (uint64_t)(uintptr_t)scoped.UNSAFE_sandboxed(sb);
+                throw std::runtime_error("scripted failure in the scope that owns the application pointer");
+              });
+              c.ev("owner destroyed by unwinding tok=%llu -> %s", (unsigned long long)tok, oname(o));
+              if (tok != 0) {
+                c.probe("owner_destroyed_by_exception_unwinding");
+                int* got = nullptr;
+                Outcome lo = raw_lookup(tok, got);
+                if (lo != ABORT && !model.count(tok))
+                  c.violate("C15", "released_token_still_resolves@reg", "token=%llu belonged to an owner that an exception destroyed", (unsigned long long)tok);
+                else if (!model.count(tok) && std::find(released.begin(), released.end(), tok) == released.end())
+                  released.push_back(tok);
+              }
+              break;
+            }
             do_reg(opn);
             break;
           case K_REG_MANY: {
